@@ -386,21 +386,6 @@ func digAt(d []dig, i int) dig {
 	return dig{"<end>", "<end>"}
 }
 
-// trigger names the peculiarity of the texts involved in a difference; it is
-// part of violation keys so that unrelated defects get different keys.
-func trigger(texts ...string) string {
-	all := strings.Join(texts, "\x00")
-	switch {
-	case strings.Contains(all, "%"):
-		return "percent-sign"
-	case strings.Contains(all, "\t"):
-		return "tab-in-literal"
-	case strings.Contains(all, "\n") || strings.Contains(all, "\r"):
-		return "line-break-in-literal"
-	}
-	return "plain"
-}
-
 func stripSpace(s string) string {
 	return strings.Map(func(r rune) rune {
 		if unicode.IsSpace(r) {
@@ -418,14 +403,27 @@ type finding struct {
 	Witness map[string]any
 }
 
+// rawFinding is a failed oracle before its cause has been attributed.
+type rawFinding struct {
+	Oracle  string // empty for crashes and hangs (Key is then complete)
+	Key     string
+	Detail  string // structural detail, used in the key when no known peculiarity explains the failure
+	What    string
+	Witness map[string]any
+}
+
 type checkOpts struct {
-	valid      bool // produced by the grammar generator / corpus: format must succeed
-	degenerate bool // contains statements that declare nothing: normalised digest, no token equality
-	comments   []placed
+	valid      bool // produced by the grammar generator: format must succeed
+	degenerate bool // may contain statements that declare nothing: normalised digest, no token-stream equality
+	// mutant: the text is a mutated program that the parser happened to accept. Crash-freedom,
+	// re-parsability and meaning are checked always; the comment and idempotence oracles only
+	// when the text has no comment (without the generator's knowledge of where a comment sits
+	// relative to its statement a failure could not be told from the known placement defects).
+	mutant bool
 }
 
 type outcome struct {
-	findings  []finding
+	raw       []rawFinding
 	accepted  bool // format.Source returned nil
 	inconcl   string
 	formatted string
@@ -440,6 +438,11 @@ func clip(s string, n int) string {
 	return s
 }
 
+var (
+	reDigits  = regexp.MustCompile(`\d+`)
+	reKeyJunk = regexp.MustCompile(`[^A-Za-z0-9'|@{}()\[\]*/:=,.-]+`)
+)
+
 func errClass(err error) string {
 	if err == nil {
 		return "nil"
@@ -450,16 +453,16 @@ func errClass(err error) string {
 	} else if i := strings.Index(ln, "expected"); i >= 0 {
 		ln = ln[i:]
 	}
-	ln = regexp.MustCompile(`\d+`).ReplaceAllString(ln, "N")
-	ln = regexp.MustCompile(`[^A-Za-z0-9'|@{}()\[\]*/:=,.-]+`).ReplaceAllString(ln, "_")
+	ln = reDigits.ReplaceAllString(ln, "N")
+	ln = reKeyJunk.ReplaceAllString(ln, "_")
 	if len(ln) > 70 {
 		ln = ln[:70]
 	}
 	return ln
 }
 
-func crashFinding(c *crash, stage string, src []byte) finding {
-	return finding{
+func crashFinding(c *crash, stage string, src []byte) rawFinding {
+	return rawFinding{
 		Key:  "C20/" + c.kind + "/" + c.where,
 		What: fmt.Sprintf("%s while %s: %s", c.kind, stage, clip(c.msg, 200)),
 		Witness: map[string]any{"input": string(src), "stage": stage, "message": c.msg,
@@ -467,8 +470,8 @@ func crashFinding(c *crash, stage string, src []byte) finding {
 	}
 }
 
-func hangFinding(h *hang, stage string, src []byte) finding {
-	return finding{
+func hangFinding(h *hang, stage string, src []byte) rawFinding {
+	return rawFinding{
 		Key:     "C20/hang/" + stage,
 		What:    fmt.Sprintf("%s did not return within %s", stage, h.waited),
 		Witness: map[string]any{"input": string(src), "stage": stage},
@@ -477,7 +480,7 @@ func hangFinding(h *hang, stage string, src []byte) finding {
 
 // check runs every oracle on one source text.
 func check(src []byte, o checkOpts) (res outcome) {
-	add := func(f finding) { res.findings = append(res.findings, f) }
+	add := func(f rawFinding) { res.raw = append(res.raw, f) }
 	slow := func(h *hang, stage string) bool {
 		if h == nil {
 			return false
@@ -509,8 +512,9 @@ func check(src []byte, o checkOpts) (res outcome) {
 	}
 	if f1.err != nil {
 		if o.valid {
-			add(finding{
-				Key:     "C20/valid-source-rejected/" + errClass(f1.err),
+			add(rawFinding{
+				Oracle:  "valid-source-rejected",
+				Detail:  errClass(f1.err),
 				What:    "format.Source rejects a program that is valid by construction: " + clip(f1.err.Error(), 300),
 				Witness: map[string]any{"input": string(src), "error": f1.err.Error()},
 			})
@@ -531,7 +535,7 @@ func check(src []byte, o checkOpts) (res outcome) {
 	}
 	if p0.err != nil || p0.ast == nil {
 		// format.Source accepted what Parse+CheckErrors rejects: cannot happen (same calls)
-		add(finding{Key: "C20/format-accepts-what-parser-rejects", What: fmt.Sprint(p0.err),
+		add(rawFinding{Key: "C20/format-accepts-what-parser-rejects", What: fmt.Sprint(p0.err),
 			Witness: map[string]any{"input": string(src)}})
 		return
 	}
@@ -544,9 +548,10 @@ func check(src []byte, o checkOpts) (res outcome) {
 		return
 	}
 	if p1.err != nil || p1.ast == nil {
-		add(finding{
-			Key:  "C20/formatted-text-unparsable/" + errClass(p1.err),
-			What: "the formatter's output is rejected by the parser: " + clip(fmt.Sprint(p1.err), 300),
+		add(rawFinding{
+			Oracle: "formatted-text-unparsable",
+			Detail: errClass(p1.err),
+			What:   "the formatter's output is rejected by the parser: " + clip(fmt.Sprint(p1.err), 300),
 			Witness: map[string]any{"input": string(src), "formatted": f1.out,
 				"error": fmt.Sprint(p1.err)},
 		})
@@ -562,11 +567,12 @@ func check(src []byte, o checkOpts) (res outcome) {
 		if where == "<end>" {
 			where = b.Path
 		}
-		if a.Path != b.Path {
+		if a.Path != b.Path && a.Path != "<end>" && b.Path != "<end>" {
 			where = a.Path + "~" + b.Path
 		}
-		add(finding{
-			Key: "C20/meaning-changed/" + where + "/" + trigger(a.Val, b.Val),
+		add(rawFinding{
+			Oracle: "meaning-changed",
+			Detail: where,
 			What: fmt.Sprintf("the formatted text parses to a different API description: at %s original has %q, formatted has %q",
 				a.Path, clip(a.Val, 120), clip(b.Val, 120)),
 			Witness: map[string]any{"input": string(src), "formatted": f1.out, "digest_index": i,
@@ -580,13 +586,17 @@ func check(src []byte, o checkOpts) (res outcome) {
 		add(crashFinding(sc1.crash, "scanning the formatted text", []byte(f1.out)))
 		return
 	}
+	if o.mutant && len(sc0.comments) > 0 {
+		return
+	}
 	if sc0.err == nil && sc1.err == nil {
 		if meaningOK && !o.degenerate {
 			t0, t1 := dropSemis(sc0.toks), dropSemis(sc1.toks)
 			if i, diff := firstTokDiff(t0, t1); diff {
 				a, b := tokAt(t0, i), tokAt(t1, i)
-				add(finding{
-					Key: "C20/tokens-changed/" + a.Type + "~" + b.Type + "/" + trigger(a.Text, b.Text),
+				add(rawFinding{
+					Oracle: "tokens-changed",
+					Detail: a.Type + "~" + b.Type,
 					What: fmt.Sprintf("non-comment token streams differ at token %d: original %s %q, formatted %s %q",
 						i, a.Type, clip(a.Text, 80), b.Type, clip(b.Text, 80)),
 					Witness: map[string]any{"input": string(src), "formatted": f1.out},
@@ -596,25 +606,17 @@ func check(src []byte, o checkOpts) (res outcome) {
 		res.nComments = len(sc0.comments)
 		lost, invented := commentDiff(sc0.comments, sc1.comments)
 		if len(lost) > 0 {
-			cls := "unplaced"
-			var pl *placed
-			for k := range o.comments {
-				if strings.Contains(lost[0], o.comments[k].ID) {
-					pl = &o.comments[k]
-					cls = pl.Where
-					break
-				}
-			}
-			add(finding{
-				Key:  "C20/comment-lost/" + cls,
-				What: fmt.Sprintf("%d comment(s) of the original are missing from the formatted text, first: %q", len(lost), clip(lost[0], 80)),
-				Witness: map[string]any{"input": string(src), "formatted": f1.out, "lost": lost,
-					"placement": pl},
+			add(rawFinding{
+				Oracle:  "comment-lost",
+				Detail:  positionOfComment(string(src), lost[0]),
+				What:    fmt.Sprintf("%d comment(s) of the original are missing from the formatted text, first: %q", len(lost), clip(lost[0], 80)),
+				Witness: map[string]any{"input": string(src), "formatted": f1.out, "lost": lost},
 			})
 		}
 		if len(invented) > 0 {
-			add(finding{
-				Key:     "C20/comment-invented/" + trigger(invented[0]),
+			add(rawFinding{
+				Oracle:  "comment-invented",
+				Detail:  "text",
 				What:    fmt.Sprintf("%d comment(s) of the formatted text are not in the original, first: %q", len(invented), clip(invented[0], 80)),
 				Witness: map[string]any{"input": string(src), "formatted": f1.out, "invented": invented},
 			})
@@ -635,14 +637,35 @@ func check(src []byte, o checkOpts) (res outcome) {
 	}
 	if f2.out != f1.out {
 		cls, l1, l2 := idemClass(f1.out, f2.out)
-		add(finding{
-			Key: "C20/not-idempotent/" + cls,
+		add(rawFinding{
+			Oracle: "not-idempotent",
+			Detail: cls,
 			What: fmt.Sprintf("format(format(s)) != format(s); first differing line: %q vs %q",
 				clip(l1, 100), clip(l2, 100)),
 			Witness: map[string]any{"input": string(src), "pass1": f1.out, "pass2": f2.out},
 		})
 	}
 	return
+}
+
+// classify turns failed oracles into keyed findings (cause attribution by ablation).
+func classify(src string, res outcome, o checkOpts, g *genCtx) []finding {
+	var out []finding
+	for _, rf := range res.raw {
+		key := rf.Key
+		if rf.Oracle != "" {
+			cause := attribute(src, rf.Oracle, o, g)
+			key = "C20/" + rf.Oracle + "/" + cause
+			switch cause {
+			case "plain", "other-comment", "combination":
+				key += "/" + rf.Detail
+			}
+			rf.Witness["cause"] = cause
+			rf.Witness["detail"] = rf.Detail
+		}
+		out = append(out, finding{Key: key, What: rf.What, Witness: rf.Witness})
+	}
+	return out
 }
 
 func dropSemis(ts []lexTok) []lexTok {
@@ -750,7 +773,7 @@ func idemClass(a, b string) (cls, la, lb string) {
 	commentsVerbatim := reflect.DeepEqual(sa.comments, sb.comments)
 	switch {
 	case !tokensSame:
-		return "tokens-differ/" + trigger(la, lb), la, lb
+		return "tokens-differ", la, lb
 	case inBlock && !commentsVerbatim:
 		return "white-space-inside-block-comment", la, lb
 	case !commentsVerbatim:
